@@ -190,7 +190,9 @@ def run(tier, seed):
         if tier == "quick":
             jobs.append((n, 1 if three else 2, True))
         else:
-            jobs.append((n, 2 if three else 3, True))
+            # deeper bounds where the scenario is small enough; the store-creation race is explored without any bound
+            b = 2 if three else (None if n.startswith("S5") else (4 if n.startswith(("S1_", "S3_", "S2_")) else 3))
+            jobs.append((n, b, True))
     outs = pool.pmap(_job, jobs, chunk=1)
     states = trans = val = 0
     per = []
@@ -199,14 +201,14 @@ def run(tier, seed):
         trans += stats["transitions"]
         val += stats["validated"]
         per.append(stats)
-        if stats["outcomes"] < 1 or (stats["procs"] > 1 and stats["max_preemptions"] < 1 and stats["bound"] > 0):
+        if stats["outcomes"] < 1 or (stats["procs"] > 1 and stats["max_preemptions"] < 1 and (stats["bound"] is None or stats["bound"] > 0)):
             raise core.HarnessError(f"vacuous exploration of {stats['scenario']}: {stats}")
         for k, (what, sched) in found.items():
             res.violations.append(Violation(P, k, f"[{stats['scenario']}] schedule {sched}: {what}",
                                             {"scenario": stats["scenario"], "schedule": sched, "torn": stats["torn"]}))
     res.coverage = dict(states=states, transitions=trans, traces_validated_against_impl=val, per_scenario=per,
                         schedules_completed=sum(s["complete"] for s in per), runs=sum(s["runs"] for s in per),
-                        distinct_outcomes=sum(s["outcomes"] for s in per), preemption_bound=max(s["bound"] for s in per),
+                        distinct_outcomes=sum(s["outcomes"] for s in per), preemption_bound=max((s["bound"] for s in per if s["bound"] is not None), default=0), unbounded_scenarios=[s["scenario"] for s in per if s["bound"] is None],
                         exhaustive=all(s["capped"] is None for s in per),
                         rule="per scenario: DFS over all schedules of the processes' file-system primitives (stat, mkdir, open, each half of each write, close, "
                              "unlink, symlink, rename, readlink ...) with at most `bound` preemptions, pruned on exact state keys (file-system snapshot + each "
